@@ -52,6 +52,9 @@ pub enum EvFault {
     /// wire bank i replaced by its suppressed 16-byte form under another channel's name
     SuppressedRenamed { i: usize },
     RenamePadBank { msg: usize, chunk: usize },
+    /// one chunk bank of message `msg` arrives under the bank name of ANOTHER board that has
+    /// traffic of its own in this event (message `other`); the chunk itself is genuine
+    RenamePadBankToPresent { msg: usize, chunk: usize, other: usize },
     SwapPadPayloads { a: usize, b: usize },
     DupPadChunk { msg: usize, chunk: usize },
     DropPadChunk { msg: usize, chunk: usize },
@@ -103,6 +106,7 @@ impl EvFault {
             EvFault::BvChannelInWireBank { short: true, .. } => "bv_channel_in_wire_bank_suppressed",
             EvFault::SuppressedRenamed { .. } => "suppressed_wire_renamed",
             EvFault::RenamePadBank { .. } => "rename_pad_bank",
+            EvFault::RenamePadBankToPresent { .. } => "rename_pad_bank_to_board_with_traffic",
             EvFault::SwapPadPayloads { .. } => "swap_pad_payloads",
             EvFault::DupPadChunk { .. } => "dup_pad_chunk",
             EvFault::DropPadChunk { .. } => "drop_pad_chunk",
@@ -455,6 +459,22 @@ pub fn apply_fault(ev: &mut BuiltEvent, f: &EvFault, run: u32) -> bool {
             ev.banks[bi].name = format!("PC{}", boards::pwb_boards()[(k + 1) % boards::pwb_boards().len()].name);
             true
         }
+        EvFault::RenamePadBankToPresent { msg, chunk, other } => {
+            if ev.pad_idx.len() < 2 {
+                return false;
+            }
+            let mi = msg % ev.pad_idx.len();
+            let cur = ev.pad_msgs[mi].board;
+            let cands: Vec<usize> = (0..ev.pad_idx.len()).filter(|&o| ev.pad_msgs[o].board != cur).collect();
+            if cands.is_empty() {
+                return false;
+            }
+            let o = cands[other % cands.len()];
+            let m = &ev.pad_idx[mi];
+            let bi = m[chunk % m.len()];
+            ev.banks[bi].name = ev.banks[ev.pad_idx[o][0]].name.clone();
+            true
+        }
         EvFault::SwapPadPayloads { a, b } => {
             if ev.pad_idx.len() < 2 {
                 return false;
@@ -773,6 +793,7 @@ pub fn all_faults(r: &mut Rng) -> Vec<EvFault> {
         EvFault::DupAndDropPadChunk { msg: j, dup: i + 1, lost: i },
         EvFault::DupPadChunkSameCrc { msg: i, chunk: j },
         EvFault::ChunkHeadersOtherBoard { msg: i },
+        EvFault::RenamePadBankToPresent { msg: i, chunk: j, other: i / 7 + j },
     ]
 }
 
@@ -965,9 +986,9 @@ impl Check for C10Check {
             let scn = Scn { base, fault: None, order_seeds: vec![0, r.next_u64() | 2], hash_keys: vec![r.next_u64()], pred: vec![] };
             return serde_json::to_value(scn).unwrap();
         }
-        // base event k = index / 37, fault slot = index % 37 (0 = none)
-        let k = index / 37;
-        let slot = (index % 37) as usize;
+        // base event k = index / 38, fault slot = index % 38 (0 = none)
+        let k = index / 38;
+        let slot = (index % 38) as usize;
         let base_seed = simcore::run_seed(simcore::driver::verif_seed(), "C10-base", k);
         let mut rb = Rng::new(base_seed);
         let run = RUNS[(k % RUNS.len() as u64) as usize];
